@@ -102,6 +102,51 @@ let get_acr = function A "default" -> gen_acronyms | x -> get_list get_bytes x
 let get_oracle x = get_list (function L [k; v] -> (get_bytes k, get_bytes v) | _ -> failwith "kv") x
 let put_amap m = L (List.map (fun (k, v) -> L [put_bytes k; put_bytes v]) m)
 
+(* ---- file system / apply model ---- *)
+let get_path x = get_list get_bytes x
+let put_path p = put_list put_bytes p
+let get_node = function
+  | L [A "f"; m; c] -> File (get_n m, get_bytes c)
+  | L [A "d"; m] -> Dir (get_n m)
+  | L [A "l"; t] -> Link (get_bytes t)
+  | _ -> failwith "node expected"
+let put_node = function
+  | File (m, c) -> L [A "f"; put_n m; put_bytes c]
+  | Dir m -> L [A "d"; put_n m]
+  | Link t -> L [A "l"; put_bytes t]
+let get_fs x = get_list (function L [p; n] -> (get_path p, get_node n) | _ -> failwith "fs entry") x
+let put_fs t = put_list (fun (p, n) -> L [put_path p; put_node n]) t
+let get_ahunk = function
+  | L [f; s; e; c; r] -> { ah_file = get_path f; ah_start = get_nat s; ah_end = get_nat e;
+                           ah_content = get_bytes c; ah_replace = get_bytes r }
+  | _ -> failwith "ahunk"
+let get_aren = function
+  | L [p; np; d] -> { ar_path = get_path p; ar_new = get_path np; ar_dir = get_bool d }
+  | _ -> failwith "aren"
+let get_aplan = function
+  | L [id; hs; rs] -> { ap_id = get_bytes id; ap_hunks = get_list get_ahunk hs; ap_renames = get_list get_aren rs }
+  | _ -> failwith "aplan"
+let put_mop = function
+  | MCreate p -> L [A "create"; put_path p]
+  | MWrite (p, d) -> L [A "write"; put_path p; put_bytes d]
+  | MChmod (p, m) -> L [A "chmod"; put_path p; put_n m]
+  | MRename (s, d) -> L [A "rename"; put_path s; put_path d]
+  | MMkdir p -> L [A "mkdir"; put_path p]
+  | MUnlink p -> L [A "unlink"; put_path p]
+  | MRmdir p -> L [A "rmdir"; put_path p]
+  | MSync p -> L [A "sync"; put_path p]
+let put_failure = function
+  | FailRead p -> L [A "read"; put_path p]
+  | FailMismatch p -> L [A "mismatch"; put_path p]
+  | FailPanic p -> L [A "panic"; put_path p]
+  | FailIo (o, e) -> L [A "io"; put_mop o;
+      A (match e with ENOENT -> "ENOENT" | EEXIST -> "EEXIST" | ENOTEMPTY -> "ENOTEMPTY" | ENOTDIR -> "ENOTDIR"
+                    | EISDIR -> "EISDIR" | EINVAL -> "EINVAL" | EINJECTED -> "EINJECTED")]
+let get_inj = function A "none" -> no_fault | x -> one_fault (get_nat x)
+let put_result r =
+  L [put_bool r.r_ok; put_opt put_failure r.r_fail; put_fs r.r_fs; put_list put_mop r.r_trace;
+     put_list (fun (a, b) -> L [put_path a; put_path b]) r.r_performed]
+
 let dispatch (req : Sexp.t) : Sexp.t =
   match req with
   | L (A op :: args) -> begin
@@ -125,6 +170,9 @@ let dispatch (req : Sexp.t) : Sexp.t =
                     (get_oracle sing) (get_oracle plur)
                     (get_bool plurals) (get_bytes search) (get_bytes repl)
                     (get_opt (get_list get_style) styles)))
+      | "apply_core", [inj; p; t] ->
+        put_result (apply_core (get_inj inj) (get_aplan p) (get_fs t))
+      | "spec_apply", [p; t] -> put_fs (spec_apply (get_aplan p) (get_fs t))
       | "serde_plan", [p] ->
         let p = get_plan p in
         let j = enc_plan p in
